@@ -291,7 +291,16 @@ class RefSFTPServer:
         self.send(FXP_STATUS, u32(rid) + u32(code) + sstr(msg) + sstr(''))
 
     def _handle(self, obj):
-        h = b'h%d' % self.next_handle
+        style = self.plan.get('handle_style')
+        if style == 'empty' and b'' not in self.handles:
+            h = b''                      # a handle is any string, also this
+        elif style == 'binary':
+            h = bytes([0, 255, self.next_handle & 255]) + b'\x00' * 5
+        elif style == 'long':
+            h = (b'H%d-' % self.next_handle) * 60
+            h = h[:256]
+        else:
+            h = b'h%d' % self.next_handle
         self.next_handle += 1
         self.handles[h] = obj
         return h
